@@ -40,6 +40,14 @@ def run(ctx):
     s = summarize(prog, ar)
     ep, bp = ar.params[1], ar.params[2]
     posts = [t for n, t in s.ta.terms_at.items() if isinstance(n, ast.Call) and call_is(t, f"{BASE}._post_request")]
+    if not posts:
+        # the post handed to a helper (one that takes the API lock, say): its call is in the value the helper call was seen through to
+        seen_p = []
+        for t in s.ta.terms_at.values():
+            for x in subterms(t):
+                if call_is(x, f"{BASE}._post_request") and x not in seen_p:
+                    seen_p.append(x)
+        posts = seen_p
     ctx.count("post_sites", len(posts))
     for c in posts:
         fd = dict(c[3]).get("form_data")
